@@ -28,6 +28,23 @@ def tags_of(files, op):
             stmts.setdefault(st.module or "", []).append(id(st))
     if any(len(set(v)) > 1 for v in stmts.values()):
         tags.add("same-module-name-in-several-import-statements")
+    if op["api"] == "froms_to_imports":
+        # 'from package import module' names a submodule, not an attribute
+        import posixpath
+
+        here = posixpath.dirname(op["path"])
+        for st in ast.walk(tree):
+            if isinstance(st, ast.ImportFrom):
+                base = here
+                for _ in range(max(st.level - 1, 0)):
+                    base = posixpath.dirname(base)
+                if st.level == 0:
+                    base = ""
+                if st.module:
+                    base = posixpath.join(base, *st.module.split("."))
+                for a in st.names:
+                    if posixpath.join(base, a.name + ".py") in files or posixpath.join(base, a.name, "__init__.py") in files:
+                        tags.add("from-import-of-a-submodule")
     return sorted(tags)
 
 
